@@ -309,6 +309,12 @@ func Run(c *vh.Ctx) {
 		lap("closure probe; ksort/krsort against the model")
 		return
 	}
+	if os.Getenv("C20_ONLY") == "unbalanced" { // development aid: only the round-7 streams
+		e.unbalancedStream()
+		e.obModelStream(m, obCases(c.N(5, 7)))
+		lap("unbalanced stream; output-buffer stack against the model")
+		return
+	}
 	e.orderStream()
 	lap("script-level insertion order")
 	pool := e.buildPool()
@@ -324,6 +330,9 @@ func Run(c *vh.Ctx) {
 	lap("pairs")
 	e.knownStream()
 	lap("known stream")
+	e.unbalancedStream()
+	e.obModelStream(m, obCases(c.N(5, 7)))
+	lap("unbalanced stream; output-buffer stack against the model")
 	e.reorderStream(m)
 	lap("reorder stream")
 	e.closureProbe()
@@ -570,6 +579,18 @@ func (e *env) replay(m *vh.Model) {
 		var cs omCase
 		if json.Unmarshal(c.ReplayRaw, &cs) == nil {
 			omCheck(c, m, []omCase{cs})
+		}
+		return
+	case "obstack":
+		var oc obCase
+		if json.Unmarshal(c.ReplayRaw, &oc) == nil {
+			bin, err := buildOrigami(c.Repo, c.Scratch)
+			if err != nil {
+				c.Mismatch(nil, err.Error(), "", "interpreter build failed")
+				return
+			}
+			e.bin = bin
+			e.obModelStream(m, []obCase{oc})
 		}
 		return
 	case "reorder", "ksortm", "closure", "panicstack":
